@@ -1,6 +1,7 @@
 package props
 
 import (
+	"regexp"
 	"fmt"
 	"go/ast"
 	"go/types"
@@ -75,6 +76,7 @@ func runC09(c *engine.Ctx, tier string) {
 	for _, rel := range []string{pkgProposalCtl, pkgTransactionCtl, pkgConfigCtl, pkgMastershipCtl} {
 		transientReturned(c, "C09.5/"+strings.TrimPrefix(rel, "pkg/controller/v2/"), rel)
 	}
+	infraWatcherMaps(c)
 	controllerWiring(c)
 	managerWiring(c)
 	everyOpenPhaseIsServed(c)
@@ -483,6 +485,104 @@ func everyOpenPhaseIsServed(c *engine.Ctx) {
 				When: when,
 				Must: []engine.Sel{{Call: x.fnPfx + p.fn}},
 				Why:  "whatever else the record says (its summary state, its age), a record whose " + p.name + " phase is open — and no phase of higher precedence — is handed to " + p.fn + ": an early exit in front of the dispatcher strands it"})
+		}
+	}
+}
+
+// infrastructure watchers: the same frozen-table rule for the controllers that keep connections,
+// relations and mastership in step. Patterns are matched after rendering symbols and normalising
+// allocation numbers.
+var infraWatcherTable = []struct {
+	pkg, recv string
+	sends     []string // substrings that identify each expected send (all must be present in one send)
+	under     [][]string
+}{
+	{pkgMastershipCtl, "TopoWatcher", []string{
+		"controller.NewID(store/v2/configuration.NewID(config/v2.TargetID(⟨{^w.topo}store/topo.Store.Get(recv(^eventCh).Object.Obj.(*topo.Object_Relation).Relation.TgtEntityID)⟩.ID),config/v2.TargetType(&topo.Configurable{}@k.Type),config/v2.TargetVersion(&topo.Configurable{}@k.Version)))",
+		"controller.NewID(store/v2/configuration.NewID(config/v2.TargetID(recv(^eventCh).Object.ID),config/v2.TargetType(&topo.Configurable{}@k.Type),config/v2.TargetVersion(&topo.Configurable{}@k.Version)))"}, nil},
+	{pkgConnectionCtl, "ConnWatcher", []string{"controller.NewID({recv(^c.connCh)}southbound/gnmi.Conn.ID())"}, nil},
+	{pkgConnectionCtl, "TopoWatcher", []string{"controller.NewID(southbound/gnmi.ConnID(recv(^eventCh).Object.ID))"},
+		[][]string{{".Relation.KindID == topo.CONTROLS", ".Relation.SrcEntityID"}}},
+	{pkgTargetCtl, "ConnWatcher", []string{"controller.NewID({recv(^c.connCh)}southbound/gnmi.Conn.TargetID())"}, nil},
+	{pkgTargetCtl, "TopoWatcher", []string{"controller.NewID(recv(^eventCh).Object.ID)"}, nil},
+}
+
+var allocRe = regexp.MustCompile(`@\d+`)
+
+func infraWatcherMaps(c *engine.Ctx) {
+	o := c.Custom("C09.4b", "K-own(watcher bodies, infrastructure)", "the watchers of the mastership, connection and target controllers send exactly the frozen ids per event (the configuration of the relation's target / of the entity; the connection's id; the relation's id under CONTROLS ∧ own source; the connection's target; the entity)",
+		"a connection that appears or disappears must reach the connection controller (relation), the mastership controller (term) and the target controller: a re-targeted or dropped mapping leaves a dead master in place")
+	defer o.Done(5)
+	for _, w := range infraWatcherTable {
+		paths, err := c.A.PathsOpt(w.pkg, engine.PathOpts{NoInline: true})
+		if err != nil {
+			o.Undecided(w.pkg, err.Error())
+			continue
+		}
+		got := map[string]*engine.Path{}
+		gotIdx := map[string]int{}
+		for _, p := range paths {
+			if p.Lit == nil || !strings.HasSuffix(p.Root.Name(), "."+w.recv+".Start") {
+				continue
+			}
+			for i := range p.Events {
+				e := &p.Events[i]
+				if e.Kind == engine.EvSend && e.Chan == "^ch" {
+					k := allocRe.ReplaceAllString(c.P.Render(e.RHS, nil), "@k")
+					got[k] = p
+					gotIdx[k] = i
+				}
+			}
+		}
+		o.Site(w.pkg + "." + w.recv)
+		matched := map[string]bool{}
+		for _, want := range w.sends {
+			o.Eval(1)
+			parts := strings.Split(want, "|")
+			found := ""
+			for g := range got {
+				ok := true
+				rest := g
+				for _, part := range parts {
+					idx := strings.Index(rest, part)
+					if idx < 0 {
+						ok = false
+						break
+					}
+					rest = rest[idx+len(part):]
+				}
+				if ok && (len(parts) > 1 || g == want) {
+					found = g
+				}
+			}
+			if found == "" {
+				o.Fail(&engine.Violation{Key: w.pkg + "." + w.recv + "|missing " + parts[0], Pos: w.pkg, Func: w.recv + ".Start",
+					Msg: "the watcher no longer maps its event to " + strings.Join(parts, "…")})
+				continue
+			}
+			matched[found] = true
+			for _, conds := range w.under {
+				p, i := got[found], gotIdx[found]
+				for _, need := range conds {
+					ok := false
+					for _, l := range engine.CondsBefore(p, i) {
+						if strings.Contains(l.String(), need) && l.Mask == 2 {
+							ok = true
+						}
+					}
+					if !ok {
+						o.Fail(&engine.Violation{Key: w.pkg + "." + w.recv + "|send without " + need, Pos: c.P.Pos(p.Events[i].Pos), Func: w.recv + ".Start",
+							Msg: "the id is sent without the condition " + need + " == … : relations of other kinds or of other nodes would be reconciled as this node's connections"})
+					}
+				}
+			}
+		}
+		for g, p := range got {
+			o.Eval(1)
+			if !matched[g] {
+				o.Fail(&engine.Violation{Key: w.pkg + "." + w.recv + "|sends " + g, Pos: c.P.Pos(p.Events[gotIdx[g]].Pos), Func: w.recv + ".Start",
+					Msg: "the watcher maps an event to an id that is not in the frozen table: " + g})
+			}
 		}
 	}
 }
